@@ -149,28 +149,59 @@ pub fn check_step(which: u8) {
     }
 }
 
-/// C11: execute() == step() until the first Ok(false) / Err.  Bounded: the limit is at most 2, so the loop runs at most 3 times.
+/// C11 "running to completion is the same as stepping repeatedly": execute() on one machine against a loop of
+/// step() calls on an identical second machine - same result, same final state, same number of instructions.
+/// Bounded: the instruction limit is at most 2, so either loop runs at most 3 times.  Includes machines that are
+/// already finished when execute() is called.
 pub fn check_execute() {
-    let mut ax = empty_ax();
-    let (_instr, _s, _h) = script(&mut ax, 2);
-    ax.script.hook_fails = [false; 2];
+    let mut a = empty_ax();
+    let (_instr, _s, _h) = script(&mut a, 2);
+    a.script.hook_fails = [false; 2];
+    a.state.finished = kani::any();
     let limit: u64 = kani::any();
     kani::assume(limit <= 2);
-    ax.set_max_instructions(limit);
-    let r = ax.execute();
-    let n = ax.state.executed_instructions_count;
+    a.set_max_instructions(limit);
+    // identical twin
+    let mut b = empty_ax();
+    b.stack_top = a.stack_top;
+    b.code_end_addr = a.code_end_addr;
+    b.state.regs = a.state.regs;
+    b.state.rflags = a.state.rflags;
+    b.state.fs = a.state.fs;
+    b.state.gs = a.state.gs;
+    b.state.finished = a.state.finished;
+    b.script = a.script;
+    b.set_max_instructions(limit);
+
+    let ra = a.execute();
+    let mut rb_ok = true;
+    let mut k = 0;
+    while k < 4 {
+        match b.step() {
+            Ok(true) => {}
+            Ok(false) => break,
+            Err(_) => {
+                rb_ok = false;
+                break;
+            }
+        }
+        k += 1;
+    }
+    let (sa, sb) = (snap(&a), snap(&b));
+    let n = a.state.executed_instructions_count;
     let sel: u8 = kani::any();
     match sel {
-        0 => assert!(n <= limit, "OBL|C11|never-more-than-limit-instructions"),
-        1 => assert!(!r.is_ok() || ax.state.finished, "OBL|C11|execute-ok-implies-finished"),
-        2 => assert!(n as u8 == ax.script.dispatch_calls || ax.script.dispatch_outcome == 1, "OBL|C11|count-equals-instructions-dispatched"),
+        0 => assert!(ra.is_ok() == rb_ok, "OBL|C11|execute-returns-what-repeated-stepping-returns"),
+        1 => assert!(same(&sa, &sb) && a.script.dispatch_calls == b.script.dispatch_calls, "OBL|C11|execute-reaches-the-state-repeated-stepping-reaches"),
+        2 => assert!(n <= limit, "OBL|C11|never-more-than-limit-instructions"),
+        3 => assert!(!ra.is_ok() || a.state.finished, "OBL|C11|execute-ok-implies-finished"),
         _ => {
-            let p = snap(&ax);
-            let d0 = ax.script.dispatch_calls;
-            let r2 = ax.step();
-            let q = snap(&ax);
-            if ax.state.finished || n >= limit {
-                assert!(r2.is_err() && same(&p, &q) && ax.script.dispatch_calls == d0, "OBL|C11|step-after-execute-fails-and-changes-nothing");
+            let p = snap(&a);
+            let d0 = a.script.dispatch_calls;
+            let r2 = a.step();
+            let q = snap(&a);
+            if a.state.finished || n >= limit {
+                assert!(r2.is_err() && same(&p, &q) && a.script.dispatch_calls == d0, "OBL|C11|step-after-execute-fails-and-changes-nothing");
             }
         }
     }
